@@ -39,9 +39,15 @@ Inductive body := BPlain (a : list act) (r : res) | BGen (segs : list seg).
 Definition prog := evk -> list body.          (* handlers of an event, in priority order *)
 
 (* what the second thread does while the loop idles in FallBackGenerator *)
-(* late = true: the stopping thread is pre-empted right after its fire(stopped) has woken the loop and does
-   not execute the next statement of stop() before run() has returned (the other extreme of the schedule) *)
-Inductive xact := XNop | XFire (n : nat) | XStop (late : bool) (c : option Z).
+(* where the second thread's stop(c) -- `_running = False; _exit_code = c; fire(stopped)`, then the inline ticks
+   iff no executing thread, then raise -- is pre-empted until run() has returned in the loop's thread:
+     PJoin   nowhere: it finishes stop() before the loop moves
+     PEarly  after the two writes, BEFORE fire(stopped): only possible while the loop is not blocked, i.e. here
+             in the timed idle wait (in the unbounded wait the loop cannot move before the fire wakes it, so the
+             entry behaves like PJoin there)
+     PLate   right after fire(stopped) has woken the loop *)
+Inductive pmode := PJoin | PEarly | PLate.
+Inductive xact := XNop | XFire (n : nat) | XStop (m : pmode) (c : option Z).
 
 Inductive tr :=
 | TFire (k : evk)                    (* ghost: event appended to the queue *)
@@ -55,7 +61,8 @@ Inductive tr :=
 | TTick
 | TOut (c : option (option Z))       (* run()/top-level stop() returned (None) or raised SystemExit c (Some c) *)
 | TLen (n : nat)                     (* len(manager) observed by the harness *)
-| TLate.                             (* the stopping second thread is pre-empted after fire(stopped) *)
+| TLate                              (* the stopping second thread is pre-empted after fire(stopped) *)
+| TEarly.                            (* ... before fire(stopped) *)
 
 Definition task := (nat * nat * list seg)%type.     (* generator id, next step index, remaining steps *)
 
@@ -66,8 +73,9 @@ Record st := mk {
   sched : list (list nat);             (* order in which the task set is iterated, one entry per tick *)
   ext : list xact;
   trace : list tr;
-  pend : option (option Z);            (* a stopping second thread pre-empted right after fire(stopped): the
-                                          rest of its stop(code) runs once run() has returned *)
+  pend : option (bool * option Z);     (* a pre-empted stopping second thread (true: before its fire(stopped),
+                                          false: after it) and its code: the rest of its stop(code) runs once
+                                          run() has returned *)
   bad : bool }.                        (* depth fuel exhausted / pop from an empty heap *)
 
 Definition set_running v s := mk v (executing s) (xcode s) (fifo s) (heap s) (batch s) (tasks s) (nextg s) (sched s) (ext s) (trace s) (pend s) (bad s).
@@ -178,21 +186,30 @@ Definition run_handler (k : evk) (i : nat) (b : body) (s : st) : st :=
 Fixpoint run_handlers (k : evk) (i : nat) (bs : list body) (s : st) : st :=
   match bs with [] => s | b :: r => run_handlers k (S i) r (run_handler k i b s) end.
 
-(* one action of the second thread; the bool says whether it woke the waiting loop *)
-Definition do_xact (x : xact) (s : st) : st * bool :=
+(* one action of the second thread (timed: during the timed idle wait); the bool says whether it woke the loop *)
+Definition do_xact (timed : bool) (x : xact) (s : st) : st * bool :=
   match x with
   | XNop => (s, false)
   | XFire n => (fire (KUser n) s, true)
-  | XStop late c =>
+  | XStop m c =>
       let w := running s in
-      if late && running s && executing s then
-        (* the second thread's stop(c), statement by statement, up to and including the wake-up ... *)
+      let joined := let '(s', raised) := req_stop c s in (t2_raise c raised s', w) in
+      if running s && executing s then
+        (* the second thread's stop(c), statement by statement, up to the point where it is pre-empted;
+           the loop runs on; the rest is finish_late *)
         let s0 := set_running false (logt (TReq c) s) in
-        let s1 := if legacy_order then s0 else set_xcode c s0 in
-        (* ... where it is pre-empted; the loop runs on; see finish_late *)
-        (set_pend (Some c) (logt TLate (fire KStopped s1)), w)
-      else
-        let '(s', raised) := req_stop c s in (t2_raise c raised s', w)
+        match m with
+        | PJoin => joined
+        | PEarly =>
+            if timed then
+              let s1 := if legacy_order then s0 else set_xcode c s0 in
+              (set_pend (Some (true, c)) (logt TEarly s1), w)
+            else joined
+        | PLate =>
+            let s1 := if legacy_order then s0 else set_xcode c s0 in
+            (set_pend (Some (false, c)) (logt TLate (fire KStopped s1)), w)
+        end
+      else joined
   end.
 
 (* `while event.time_left < 0: self._continue.wait(10000)` *)
@@ -200,13 +217,13 @@ Fixpoint idle_wait (xs : list xact) (s : st) : st :=
   match xs with
   | [] => let s0 := logt (TWait true) (set_ext [] s) in
           if running s0 then fst (req_stop None s0) else set_bad s0
-  | x :: r => let '(s', woke) := do_xact x (logt (TWait true) (set_ext r s)) in
+  | x :: r => let '(s', woke) := do_xact false x (logt (TWait true) (set_ext r s)) in
               if woke then s' else idle_wait r s'
   end.
 
 Definition timed_wait (s : st) : st :=
   let s0 := logt (TWait false) s in
-  match ext s0 with [] => s0 | x :: r => fst (do_xact x (set_ext r s0)) end.
+  match ext s0 with [] => s0 | x :: r => fst (do_xact true x (set_ext r s0)) end.
 
 (* _dispatcher(event, channels, remaining) with remaining = batch (already decremented) *)
 Definition dispatch (k : evk) (s : st) : st :=
@@ -284,16 +301,18 @@ End Loop.
 Fixpoint tickd (lg : bool) (P : prog) (d : nat) : st -> st :=
   match d with O => set_bad | S d' => tick lg P (tickd lg P d') end.
 
-(* the rest of a pre-empted second-thread stop(c), executed after run() has returned: (legacy order: record
-   the code now;) no executing thread any more -> three inline ticks in the second thread; raise SystemExit *)
+(* the rest of a pre-empted second-thread stop(c), executed after run() has returned: pre-empted before the fire:
+   fire stopped now; (legacy order: record the code now;) no executing thread any more -> three inline ticks in
+   the second thread; raise SystemExit *)
 Definition finish_late (lg : bool) (P : prog) (d : nat) (s : st) : st :=
   match pend s with
   | None => s
-  | Some c =>
+  | Some (early, c) =>
       let s0 := set_pend None s in
-      let s1 := if lg then set_xcode c s0 else s0 in
+      let s1 := if early then fire KStopped s0 else s0 in
+      let s1' := if lg then set_xcode c s1 else s1 in
       let t := tickd lg P d in
-      let s2 := if executing s1 then s1 else t (t (t s1)) in
+      let s2 := if executing s1' then s1' else t (t (t s1')) in
       t2_raise c true s2
   end.
 
